@@ -1841,10 +1841,14 @@ fn parse_expr_unchecked(
                                 swizzle_slots.len() as u32,
                             ))
                     };
+                    // The matrix orientation does not apply to components of the matrix
+                    let mut component_mod = composite_mod;
+                    component_mod.row_major = false;
+                    component_mod.column_major = false;
                     let ty = context
                         .module
                         .type_registry
-                        .combine_modifier(ty_unmod, composite_mod);
+                        .combine_modifier(ty_unmod, component_mod);
                     let ety = ExpressionType(ty, vt);
                     let node = ir::Expression::MatrixSwizzle(Box::new(composite_ir), swizzle_slots);
                     Ok(TypedExpression::Value(node, ety))
